@@ -13,6 +13,9 @@ import (
 )
 
 func init() {
+	mutant(&Mutant{Name: "c06-bracket-count-reset-before-cdata", Property: "C06", File: "xml/xml.go",
+		Old: "\t\tt := *tb.Shift()\n\t\tif t.TokenType == xml.CDATAToken {", New: "\t\tt := *tb.Shift()\n\t\tif t.TokenType != xml.TextToken && t.TokenType != xml.CommentToken {\n\t\t\tbrackets = 0\n\t\t}\n\t\tif t.TokenType == xml.CDATAToken {",
+		Rule: "R06.9", Construct: "receives the bracket count of the preceding character data"})
 	register(&Property{
 		ID:    "C06",
 		Level: "other",
@@ -1104,6 +1107,57 @@ func (c *Ctx) r069(rule, rel string) {
 	}
 	c.R.Floor(rule, "writes of text token data", n, 1)
 	c.R.Floor(rule, "CDATA sections converted to text", m, 1)
+	// (d) the count handed to the escaper is the one left by the character data written before: it is not reset between
+	// the fetch of the token and the call
+	k := 0
+	for _, y := range g.Nodes {
+		a := y.Ast()
+		if a == nil || y.Kind != flow.KStmt {
+			continue
+		}
+		var cntArg types.Object
+		ast.Inspect(a, func(z ast.Node) bool {
+			ce, ok := z.(*ast.CallExpr)
+			if !ok || !isEscaper(ce) {
+				return true
+			}
+			for _, arg := range ce.Args {
+				if id, ok := ast.Unparen(arg).(*ast.Ident); ok && isIntType(info.TypeOf(id)) {
+					cntArg = info.Uses[id]
+				}
+			}
+			return true
+		})
+		if cntArg == nil {
+			continue
+		}
+		k++
+		isHead := func(q *flow.Node) bool {
+			qa := q.Ast()
+			return qa != nil && q.Kind == flow.KStmt && strings.Contains(nospace(str0(qa)), ".Shift()")
+		}
+		var bad []string
+		for _, z := range g.Nodes {
+			as, ok := z.Stmt.(*ast.AssignStmt)
+			if !ok || z.Kind != flow.KStmt || len(as.Lhs) != 1 || len(as.Rhs) != 1 || z == y {
+				continue
+			}
+			id, ok := as.Lhs[0].(*ast.Ident)
+			if !ok || info.Uses[id] != cntArg {
+				continue
+			}
+			if v, isK := intConst(info, as.Rhs[0]); !isK || v != 0 {
+				continue
+			}
+			y := y
+			if p := g.Path(flow.Search{From: []*flow.Node{z}, Goal: func(q *flow.Node) bool { return q == y }, Avoid: isHead, Track: true, TrackFields: true, Init: g.InitFacts(z, true)}); p != nil {
+				bad = append(bad, c.pos(as))
+			}
+		}
+		c.R.Check(len(bad) == 0, rule, fmt.Sprintf("%s.Minifier.Minify/escaper call#%d receives the bracket count of the preceding character data", rel, k), c.pos(a), "no reset between the fetch of the token and the call",
+			"the count of `]` that ended the character data written before is set to 0 ("+strings.Join(bad, ", ")+") for the same token for which it is then handed to the escaper: `x]]` followed by a CDATA section that becomes the text `>y` gives `x]]>y`, which is not well-formed")
+	}
+	c.R.Floor(rule, "escaper calls that carry the bracket count", k, 1)
 	// (c) the escaper itself is the one-pass counter automaton
 	for _, efd := range load.FuncDecls(pk) {
 		if efd.Body == nil || efd.Recv != nil || efd.Type.Params == nil {
